@@ -550,11 +550,11 @@ func init() {
 				s = string(bs)
 			}
 			e.bufAppend(c, s)
-			return Tuple{e.strLen(s), (*Iface)(nil)}
+			return Tuple{e.writeLen(s), (*Iface)(nil)}
 		},
 		"(*bytes.Buffer).WriteString": func(e *Engine, _ *ssa.Function, a []Value) Value {
 			e.bufAppend(a[0].(*Cell), a[1])
-			return Tuple{e.strLen(a[1]), (*Iface)(nil)}
+			return Tuple{e.writeLen(a[1]), (*Iface)(nil)}
 		},
 		"(*bytes.Buffer).String": func(e *Engine, _ *ssa.Function, a []Value) Value {
 			if v, ok := e.bufs[a[0].(*Cell)]; ok {
@@ -564,7 +564,7 @@ func init() {
 		},
 		"(*strings.Builder).WriteString": func(e *Engine, _ *ssa.Function, a []Value) Value {
 			e.bufAppend(a[0].(*Cell), a[1])
-			return Tuple{e.strLen(a[1]), (*Iface)(nil)}
+			return Tuple{e.writeLen(a[1]), (*Iface)(nil)}
 		},
 		"(*strings.Builder).String": func(e *Engine, _ *ssa.Function, a []Value) Value {
 			if v, ok := e.bufs[a[0].(*Cell)]; ok {
@@ -641,7 +641,7 @@ func (e *Engine) writeTo(w Value, s Value) Value {
 	if ifc == nil {
 		panic(&goPanic{msg: "runtime error: invalid memory address or nil pointer dereference (nil io.Writer)", rt: true})
 	}
-	n := e.strLen(s)
+	n := e.writeLen(s)
 	switch ifc.T.String() {
 	case "*os.File":
 		c, _ := ifc.V.(*Cell)
@@ -675,6 +675,19 @@ func (e *Engine) writeTo(w Value, s Value) Value {
 		arg = &SliceV{B: &Backing{Rope: x, Elem: types.Typ[types.Byte]}, Len: -1, Cap: -1}
 	}
 	return e.call(fn, []Value{ifc.V, arg}, nil)
+}
+
+// writeLen is the byte count reported by a write; for strings containing Quote(symbolic) the
+// count is not modelled (0) — no code under check reads it.
+func (e *Engine) writeLen(s Value) Value {
+	if r, ok := s.(*Rope); ok {
+		for _, sg := range r.Segs {
+			if sg.Q != nil {
+				return int64(0)
+			}
+		}
+	}
+	return e.strLen(s)
 }
 
 // ---- fmt ----
